@@ -622,3 +622,69 @@ Proof.
   - intros Q l Hext. destruct (step s l) eqn:E; [|reflexivity]. exfalso. exact (quiescent_spec s Q l s0 Hext E).
   - apply quiescent_intro.
 Qed.
+
+(* ------------------------------------------------------------------ C44: quiescence is reached *)
+
+Lemma internal_labels_not_external s l : In l (internal_labels s) -> external l = false.
+Proof.
+  unfold internal_labels. intros Hin. apply in_app_or in Hin as [Hin|Hin].
+  - simpl in Hin. repeat (destruct Hin as [<-|Hin]; [reflexivity|]). destruct Hin.
+  - apply in_flat_map in Hin as [x [_ Hl]]. simpl in Hl.
+    repeat (destruct Hl as [<-|Hl]; [reflexivity|]). destruct Hl.
+Qed.
+
+Lemma reachable_step s l s' : reachable s -> step s l = Some s' -> reachable s'.
+Proof.
+  intros [ls H] St. exists (ls ++ [l]).
+  revert H. generalize init. induction ls as [|a r IH]; simpl; intros s0 H.
+  - inversion H; subst. rewrite St. reflexivity.
+  - destruct (step s0 a) as [s1|]; [|discriminate]. apply IH. exact H.
+Qed.
+
+Lemma run_snoc s ls l s1 s2 : run s ls = Some s1 -> step s1 l = Some s2 -> run s (ls ++ [l]) = Some s2.
+Proof.
+  revert s. induction ls as [|a r IH]; simpl; intros s H St.
+  - inversion H; subst. rewrite St. reflexivity.
+  - destruct (step s a) as [s0|]; [|discriminate]. apply IH; assumption.
+Qed.
+
+Lemma reaches_quiescence_bounded n : forall s,
+  reachable s -> (mu s <= n)%nat ->
+  exists ls s', Forall (fun l => external l = false) ls /\ run s ls = Some s' /\ quiescent s' = true.
+Proof.
+  induction n as [|n IH]; intros s R Hn.
+  - destruct (quiescent s) eqn:Q; [exists [], s; auto|]. exfalso.
+    unfold quiescent, enabled_internal in Q.
+    destruct (filter _ _) as [|l r] eqn:E; [discriminate|].
+    assert (In l (l :: r)) as Hin by (left; reflexivity). rewrite <- E in Hin.
+    apply filter_In in Hin as [Hin Hs]. destruct (step s l) as [s1|] eqn:St; [|discriminate].
+    pose proof (thm_internal_step_decreases s l s1 R St (internal_labels_not_external s l Hin)). lia.
+  - destruct (quiescent s) eqn:Q; [exists [], s; auto|].
+    unfold quiescent, enabled_internal in Q.
+    destruct (filter _ _) as [|l r] eqn:E; [discriminate|].
+    assert (In l (l :: r)) as Hin by (left; reflexivity). rewrite <- E in Hin.
+    apply filter_In in Hin as [Hin Hs]. destruct (step s l) as [s1|] eqn:St; [|discriminate].
+    pose proof (internal_labels_not_external s l Hin) as Hext.
+    pose proof (thm_internal_step_decreases s l s1 R St Hext) as Hd.
+    destruct (IH s1 (reachable_step s l s1 R St)) as [ls [s' [F [Hr Hq]]]]; [lia|].
+    exists (l :: ls), s'. split; [constructor; assumption|]. split; [|exact Hq].
+    simpl. rewrite St. exact Hr.
+Qed.
+
+(* from every reachable state the server's own steps lead to a quiescent state (and by
+   thm_internal_step_decreases every sequence of own steps is finite: at most mu s of them) *)
+Lemma thm_reaches_quiescence s :
+  reachable s ->
+  exists ls s', Forall (fun l => external l = false) ls /\ run s ls = Some s' /\ quiescent s' = true.
+Proof. intros R. apply (reaches_quiescence_bounded (mu s) s R). lia. Qed.
+
+Lemma own_steps_bounded ls : forall s s',
+  reachable s -> Forall (fun l => external l = false) ls -> run s ls = Some s' ->
+  (length ls + mu s' <= mu s)%nat.
+Proof.
+  induction ls as [|l r IH]; simpl; intros s s' R F H.
+  - inversion H; subst. lia.
+  - destruct (step s l) as [s1|] eqn:St; [|discriminate]. inversion F; subst.
+    pose proof (thm_internal_step_decreases s l s1 R St H2).
+    pose proof (IH s1 s' (reachable_step s l s1 R St) H3 H). lia.
+Qed.
